@@ -41,6 +41,8 @@ func main() {
 	switch os.Args[1] {
 	case "debug":
 		debugMain(os.Args[2:])
+	case "matrix":
+		matrixMain()
 	case "check":
 		os.Exit(checkMain(os.Args[2:]))
 	default:
@@ -169,6 +171,69 @@ func debugMain(args []string) {
 		}
 		if len(args) > 1 {
 			fmt.Printf("    %s\n", r.State.digest())
+		}
+	}
+}
+
+func matrixMain() {
+	p, err := Load(repoDir(), BuildConfig{})
+	if err != nil {
+		fmt.Println("ERR", err)
+		os.Exit(2)
+	}
+	roots := p.roots()
+	for _, r := range roots {
+		var ns []string
+		for f := range r.Funcs {
+			ns = append(ns, p.Name(f))
+		}
+		sort.Strings(ns)
+		fmt.Printf("ROOT %s: %s\n", r.Name, strings.Join(ns, " "))
+	}
+	type key struct{ s, f string }
+	acc := map[key]map[string][]Access{}
+	for _, r := range roots {
+		for fn := range r.Funcs {
+			for _, a := range p.fieldAccesses(fn) {
+				k := key{a.Struct, a.Field}
+				if acc[k] == nil {
+					acc[k] = map[string][]Access{}
+				}
+				acc[k][r.Name] = append(acc[k][r.Name], a)
+			}
+		}
+	}
+	var keys []key
+	for k := range acc {
+		keys = append(keys, k)
+	}
+	sort.Slice(keys, func(i, j int) bool { return keys[i].s+keys[i].f < keys[j].s+keys[j].f })
+	for _, k := range keys {
+		wr := map[string]bool{}
+		for rn, as := range acc[k] {
+			for _, a := range as {
+				if a.Write {
+					wr[rn] = true
+				}
+			}
+		}
+		if len(wr) == 0 || len(acc[k]) < 2 {
+			continue
+		}
+		fmt.Printf("%s.%s:\n", k.s, k.f)
+		for _, rn := range sortedKeys(acc[k]) {
+			fns := map[string]bool{}
+			for _, a := range acc[k][rn] {
+				t := "r"
+				if a.Write {
+					t = "W"
+				}
+				if a.AddrTaken {
+					t += "&"
+				}
+				fns[t+":"+p.Name(a.Fn)] = true
+			}
+			fmt.Printf("    %-28s %s\n", rn, strings.Join(sortedKeys(fns), " "))
 		}
 	}
 }
